@@ -520,6 +520,8 @@ func rangedBuiltinMapFields(c *Ctx, tn *types.TypeName, fields []string) []strin
 // Keys that stand for a list of values are injective.
 func c10InjectiveKeys(c *Ctx, r *Report) {
 	r.Rule("R10.6", "grouping and schema keys are injective: a string that stands for a list of a record's keys or values — the result of the Mlrmap …Joined accessors, or a strings.Join that is compared, stored as state or used as a map key in the writers and verbs — is not built by putting a constant separator between the raw elements (('x,y','z') and ('x','y,z') would be the same key); the accessors length-prefix each element")
+	r.Rule("R10.6c", "one key, one way of writing: where a …Joined accessor hands each element to a helper together with an element count (which decides whether elements are length-prefixed), that count is the same for every element of the key — a constant, a parameter, or a pure function of values computed outside the loop")
+	defer func() { r.Floor("R10.6c", "element counts passed to key-writing helpers in loops", r.CountRule("R10.6c"), 4) }()
 	n := 0
 	for _, fn := range c.ModuleFunctions() {
 		if fn.Pkg == nil {
@@ -559,6 +561,7 @@ func c10InjectiveKeys(c *Ctx, r *Report) {
 				}
 			}
 			visit(fn, 0)
+			c10JoinCountInvariant(c, r, fn)
 			r.Check(sep == "" || prefixed, "R10.6", SSAName(fn), c.Rel(fn.Pos()), "elements are length-prefixed",
 				fmt.Sprintf("%s joins raw elements with the constant separator %s: two different lists whose elements contain the separator give the same key, so distinct groups / schemas are merged", SSAName(fn), sep))
 		case strings.HasSuffix(pp, "/pkg/output") || strings.HasSuffix(pp, "/pkg/transformers"):
@@ -952,4 +955,90 @@ func perElementNilTested(vals []ssa.Value) bool {
 		}
 	}
 	return n > 0
+}
+
+// R10.6c: the element count that decides how the elements of a key are
+// written is the same for every element of that key.
+func c10JoinCountInvariant(c *Ctx, r *Report, fn *ssa.Function) {
+	k := 0
+	for _, b := range fn.Blocks {
+		if !blockReachesSelf(b) {
+			continue
+		}
+		for _, in := range b.Instrs {
+			call, ok := in.(*ssa.Call)
+			if !ok {
+				continue
+			}
+			sc := call.Call.StaticCallee()
+			if sc == nil || !IsModuleFunc(sc) || sc.Pkg != fn.Pkg || sc.Signature.Recv() != nil {
+				continue
+			}
+			// a helper that takes the buffer and an element count
+			hasBuf := false
+			for _, a := range call.Call.Args {
+				if strings.HasSuffix(a.Type().String(), "bytes.Buffer") || strings.HasSuffix(a.Type().String(), "strings.Builder") {
+					hasBuf = true
+				}
+			}
+			if !hasBuf {
+				continue
+			}
+			for ai, a := range call.Call.Args {
+				if !isIntegerType(a.Type()) {
+					continue
+				}
+				k++
+				key := fmt.Sprintf("%s: element count #%d passed to %s", SSAName(fn), k, sc.Name())
+				inv := loopInvariant(a, b, map[ssa.Value]bool{}, 0)
+				r.Check(inv, "R10.6c", key, c.Rel(call.Pos()), fmt.Sprintf("argument %d is the same for every element", ai),
+					fmt.Sprintf("%s passes %s an element count that changes from one element of the key to the next: the elements of one key are then written in different ways (some length-prefixed, some raw), and two different lists can give the same key", SSAName(fn), sc.Name()))
+			}
+		}
+	}
+}
+
+// loopInvariant: v has the same value on every turn of the loop that block b
+// is in — a constant, a parameter, something computed outside that loop, or
+// a pure computation (len, arithmetic, conversion, field read) on such values.
+func loopInvariant(v ssa.Value, b *ssa.BasicBlock, seen map[ssa.Value]bool, depth int) bool {
+	if depth > 8 {
+		return false
+	}
+	switch x := v.(type) {
+	case *ssa.Const, *ssa.Parameter, *ssa.Global, *ssa.FreeVar, *ssa.Function:
+		return true
+	case ssa.Instruction:
+		vb := x.Block()
+		if vb != nil && !(blockReaches(vb, b) && blockReaches(b, vb)) {
+			return true // defined outside the loop
+		}
+		if seen[v] {
+			return false
+		}
+		seen[v] = true
+		switch y := v.(type) {
+		case *ssa.Phi:
+			return false
+		case *ssa.BinOp:
+			return loopInvariant(y.X, b, seen, depth+1) && loopInvariant(y.Y, b, seen, depth+1)
+		case *ssa.Convert:
+			return loopInvariant(y.X, b, seen, depth+1)
+		case *ssa.ChangeType:
+			return loopInvariant(y.X, b, seen, depth+1)
+		case *ssa.UnOp:
+			if y.Op == token.MUL {
+				if fa, ok := y.X.(*ssa.FieldAddr); ok {
+					return loopInvariant(fa.X, b, seen, depth+1)
+				}
+				return false
+			}
+			return loopInvariant(y.X, b, seen, depth+1)
+		case *ssa.Call:
+			if bi, ok := y.Call.Value.(*ssa.Builtin); ok && (bi.Name() == "len" || bi.Name() == "cap") {
+				return loopInvariant(y.Call.Args[0], b, seen, depth+1)
+			}
+		}
+	}
+	return false
 }
